@@ -27,7 +27,7 @@ run_one() {
   elif ! (cd "$work/repo" && go build ./... >/dev/null 2>"$work/build.err"); then
     status=skipped; detail="does not compile on the current tree"
   else
-    bin/kmipsa -repo "$work/repo" -verif "$PWD" -outdir "$work/out" -prop "$ID" -tier quick -evidence "$work/ev.json" > "$work/log" 2>&1
+    ${KMIPSA:-bin/kmipsa} -repo "$work/repo" -verif "$PWD" -outdir "$work/out" -prop "$ID" -tier quick -evidence "$work/ev.json" > "$work/log" 2>&1
     local rc=$?
     if [ $rc -eq 0 ]; then status=silent; else status=alarm; detail=$(grep -m2 'kind=' "$work/log" | tr '\n"\\' " '/" | cut -c1-300); fi
   fi
